@@ -50,9 +50,9 @@ fn horizon(s: &Spec) -> usize {
     (100.0 * m).ceil() as usize
 }
 
-fn configs() -> Vec<Spec> {
+fn configs(tier: Tier) -> Vec<Spec> {
     let mut v = vec![];
-    for n in n_grid() {
+    for n in n_grid(tier) {
         v.push(Spec::Ema(echo(), n));
         v.push(Spec::SuperSmoother(echo(), n));
         for m in [1usize, 3, 10] {
@@ -101,9 +101,9 @@ fn noise(seed: u64, amp: f64) -> impl FnMut() -> f64 {
 
 // ------------------------------------------------------------------------------------------------ (a) boundedness
 
-fn bounded_cases(_t: Tier) -> Vec<Case> {
+fn bounded_cases(t: Tier) -> Vec<Case> {
     let mut out = vec![];
-    for spec in configs() {
+    for spec in configs(t) {
         for test in 0..5i64 {
             out.push(Case { spec: Some(spec.clone()), ints: vec![test], a: Rat(1, 1), ..Default::default() });
         }
@@ -225,9 +225,9 @@ fn bounded_check(case: &Case) -> Verdict {
 
 // ------------------------------------------------------------------------------------------------ (b) fading memory
 
-fn fading_cases(_t: Tier) -> Vec<Case> {
+fn fading_cases(t: Tier) -> Vec<Case> {
     let mut out = vec![];
-    for spec in configs() {
+    for spec in configs(t) {
         for variant in 0..3i64 {
             out.push(Case { spec: Some(spec.clone()), ints: vec![variant], a: Rat(1, 1), ..Default::default() });
         }
@@ -343,7 +343,7 @@ fn chain_check(case: &Case) -> Verdict {
 
 pub fn clauses() -> Vec<Clause> {
     vec![
-        Clause::enumerated("C09", "C09/bounded/enumerated", "Enumerated: Ema, SuperSmoother, RoofingFilter(N, M in {1,3,10}), CyberCycle, TrendFlex, ReFlex (N >= 3), LaguerreRSI, EFT (N >= 2) for every N in 1..64 and {72,...,1024}; LaguerreFilter for gamma in {0, .01, ..., .99, .995, .999}; horizon T = 100 max(windows, 1/(1-gamma), 25). Linear members: impulse response finite, max|h| on [T,2T] <= 1e-6 max|h| on [0,T], sum|h| does not grow from T to 4T; inputs with |x| <= 1 of length 4T (worst-case sign pattern x_t = sign h(L-1-t), noise, alternating, square wave of period 2N) stay within sum|h| and the worst case attains it. Non-linear members (TrendFlex, ReFlex <= 5; LaguerreRSI <= 1; |EFT| <= ln 199): finite and within the analytic bound on impulse, step, noise, alternating and resonant (period N) inputs of length 4T. Non-trivial: the response is not identically zero.", bounded_cases, bounded_check).with_shard(12),
+        Clause::enumerated("C09", "C09/bounded/enumerated", "Enumerated: Ema, SuperSmoother, RoofingFilter(N, M in {1,3,10}), CyberCycle, TrendFlex, ReFlex (N >= 3), LaguerreRSI, EFT (N >= 2) for every N in 1..64 and 19 values in 72..1024 (thorough: every N to 256, then every 8th to 1024); LaguerreFilter for gamma in {0, .01, ..., .99, .995, .999}; horizon T = 100 max(windows, 1/(1-gamma), 25). Linear members: impulse response finite, max|h| on [T,2T] <= 1e-6 max|h| on [0,T], sum|h| does not grow from T to 4T; inputs with |x| <= 1 of length 4T (worst-case sign pattern x_t = sign h(L-1-t), noise, alternating, square wave of period 2N) stay within sum|h| and the worst case attains it. Non-linear members (TrendFlex, ReFlex <= 5; LaguerreRSI <= 1; |EFT| <= ln 199): finite and within the analytic bound on impulse, step, noise, alternating and resonant (period N) inputs of length 4T. Non-trivial: the response is not identically zero.", bounded_cases, bounded_check).with_shard(12),
         Clause::enumerated("C09", "C09/fading/enumerated", "Enumerated over the same configurations x 3 prefix pairs (50%-noise vs empty; 2^20 x larger vs small; alternating +-1000 vs zeros; and, for windows 3, 5, 16, 64 and every gamma, a 135 000-value noise prefix - past 2^16 and 2^17 updates - vs empty) followed by a common persistently exciting tail of 2T values (level 100, noise +-50): the maximum |out1 - out2| over tail positions [T,2T] must be <= 1e-6 x scale and <= 1e-3 x its maximum over [0,T]. Non-trivial: the two runs differed by > 1e-3 x scale right after merging.", fading_cases, fading_check).with_shard(12),
         Clause::generated("C09", "C09/chains/generated", "Generated chains of two recursive views (all 9 x 9 kinds, N in 3..24, thorough ..200): finite on bounded noise over 2T and fading memory as above, T from the largest parameter of the chain.", 400, 10_000, chain_case, chain_check).with_shard(8),
     ]
